@@ -110,7 +110,18 @@ impl<'a> ScriptGen<'a> {
                     steps.push(Step::SetData { data: Binary::from(rng.bytes(n)) })
                 }
                 4 => steps.push(Step::Attr { k: format!("k{}", rng.below(3)), v: rng.word() }),
-                5 => steps.push(Step::Event { ty: format!("e{}", rng.below(3)), k: "n".into(), v: self.nonce().to_string() }),
+                5 => {
+                    // mostly plain events; now and then one the chain itself will have words about
+                    // (a type of one character, the chain's own `wasm`, a reserved key)
+                    let (ty, k) = match rng.below(12) {
+                        0 => ("e".to_string(), "n".to_string()),
+                        1 => ("wasm".to_string(), "n".to_string()),
+                        2 => (format!("e{}", rng.below(3)), "_n".to_string()),
+                        3 => ("wasm-e".to_string(), format!("k{}", rng.below(3))),
+                        _ => (format!("e{}", rng.below(3)), "n".to_string()),
+                    };
+                    steps.push(Step::Event { ty, k, v: self.nonce().to_string() })
+                }
                 6 | 7 | 8 => {
                     if depth < self.max_depth && !self.contracts.is_empty() {
                         if let Some(s) = self.send_exec(rng, owner_cid, depth) {
@@ -186,6 +197,22 @@ impl<'a> ScriptGen<'a> {
         let addrs = self.pool_addrs();
         let script = if h.args.iter().any(|a| a.ty == "Script") && h.kind != Kind::Query {
             Some(serde_json::to_value(self.script(rng, cid, depth + 1)).unwrap())
+        } else if h.args.iter().any(|a| a.ty == "Script") && self.queries && !self.contracts.is_empty() {
+            // a query handler that takes a script relays its queries: nested queries, at most two
+            // levels below the first one
+            let qdepth = if depth >= 90 { depth - 90 } else { 0 };
+            let mut steps = vec![];
+            if qdepth < 2 {
+                for _ in 0..rng.below(3) {
+                    if let Some(q) = self.query_step_at(rng, 90 + qdepth + 1) {
+                        steps.push(q);
+                    }
+                }
+                if rng.chance(self.fail_pm, 3000) {
+                    steps.push(Step::Fail { code: rng.below(100_000) as u32 });
+                }
+            }
+            Some(serde_json::to_value(Script(steps)).unwrap())
         } else {
             None
         };
@@ -258,7 +285,7 @@ impl<'a> ScriptGen<'a> {
             code_id: *self.code_ids.get(code)?,
             ty: pe.spec.cid.to_string(),
             args: Binary::from(serde_json::to_vec(&Value::Object(args)).unwrap()),
-            label: match rng.below(5) { 0 => None, 1 => Some(String::new()), _ => Some(format!("sub{}", self.nonce())) },
+            label: match rng.below(7) { 0 => None, 1 => Some(String::new()), 2 => Some(format!(" sub{} ", self.nonce())), 3 => Some(rng.pick(&[" ", "\t", "x\n", "  lead", "trail  "]).to_string()), _ => Some(format!("sub{}", self.nonce())) },
             admin: if rng.chance(1, 2) { Some(rng.pick(&self.pool_addrs()).clone()) } else { None },
             funds: match rng.below(4) { 0 => Some(vec![Coin::new(rng.below(20) as u128, "ucoin")]), 1 => Some(vec![]), _ => None },
             salt: if rng.chance(1, 3) { let n = rng.range(1, 6) as usize; Some(Binary::from(rng.bytes(n))) } else { None },
@@ -268,9 +295,14 @@ impl<'a> ScriptGen<'a> {
     }
 
     pub fn query_step(&mut self, rng: &mut Rng) -> Option<Step> {
+        // (query depths are counted from 90: the query itself is level 1)
+        self.query_step_at(rng, 91)
+    }
+
+    fn query_step_at(&mut self, rng: &mut Rng, depth: u32) -> Option<Step> {
         let peer = rng.pick(self.contracts).clone();
         let h = self.pick_handler(rng, &peer, Kind::Query)?;
-        let args = self.args_for(rng, &peer.cid, h, 99);
+        let args = self.args_for(rng, &peer.cid, h, depth);
         Some(Step::Query {
             peer: peer.addr.clone(),
             ty: self.handle_ty(rng, &peer, h),
